@@ -335,6 +335,13 @@ def run(tier):
                 if bo[0] == ">":
                     return ("%s<%s" % (r, l), False)
                 return ("%s<%s" % (l, r), False)
+            if bo and bo[0] in (">=", "<="):
+                # 'a >= b' true establishes not (a < b) (and that neither is a NaN); false is treated as 'a < b', which the table
+                # counts as outside the bracket: the conservative reading for the NaN case
+                l, r = f_.text(bo[1]).replace("this->", ""), f_.text(bo[2]).replace("this->", "")
+                if bo[0] == "<=":
+                    return ("%s<%s" % (r, l), True)
+                return ("%s<%s" % (l, r), True)
             if bo and bo[0] in ("!=", "==") and "fpclassify" in f_.text(bo[1]):
                 return ("zero(%s)" % f_.text(f_.stmts[f_.strip(bo[1])]["args"][0]).replace("this->", ""), bo[0] == "!=")
             return None
@@ -472,6 +479,8 @@ def run(tier):
     # R6 exactness of the sign test on IEEE classes (abstract interpretation of the -O2 IR, rules/ieeeclass.py)
     import ieeeclass
     ieeeclass.same_sign_rule(rep)
+    ieeeclass.estimate_rule(rep)
     if tier == "thorough":
         ieeeclass.same_sign_rule(rep, "-O1")
+        ieeeclass.estimate_rule(rep, "-O1")
     return rep
